@@ -5,6 +5,7 @@
 mod util;
 mod vals;
 mod c13;
+mod c14;
 mod c16;
 mod mpc_common;
 mod families;
@@ -53,12 +54,17 @@ fn main() {
     let mut run = Run::new(&prop, seed, tier);
     match (mode.as_str(), prop.as_str()) {
         ("corr", "C13") => c13::corr(&mut run),
+        ("corr", "C14") => c14::corr(&mut run),
         ("corr", "C16") => c16::corr(&mut run),
         ("corr", "C01") => c01::corr(&mut run),
         ("corr", "C02") => c02::corr(&mut run),
         ("corr", "C04") => c04::corr(&mut run),
         ("gen", "C04") => {
             c04::gen(&mut run, &out);
+            return;
+        }
+        ("gen", "C01") => {
+            c01::gen(&mut run, &out);
             return;
         }
         ("gen", "C02") => {
